@@ -342,8 +342,13 @@ pub trait BinRead {
     }
 
     fn read_byte_vec(&mut self, len: usize) -> Result<Vec<u8>, Self::Err> {
-        let mut buf = vec![0; len];
-        self.read_exact(&mut buf)?;
+        // `len` often comes straight out of the file, so don't allocate it before knowing that the bytes exist.
+        let mut buf = vec![];
+        let num_read = io::Read::take(self._bin_read_reader(), len as u64).read_to_end(&mut buf)
+            .map_err(|e| self._bin_read_io_error(e))?;
+        if num_read < len {
+            return Err(self._bin_read_io_error(io::Error::new(io::ErrorKind::UnexpectedEof, "failed to fill whole buffer")));
+        }
         Ok(buf)
     }
 
